@@ -8,7 +8,9 @@
 import Proofs.Protocol
 import Proofs.SeqInv
 import Proofs.ConflictSeq
+import Proofs.AddSpec
 import Properties.C02
+import Properties.C07
 namespace Pulser
 namespace C10
 
@@ -38,6 +40,41 @@ theorem phase_jump_gap {ms : Option Nat} {c : ChanState} {others : List ChanStat
     (phaseJumpBuffer c last.tf
       (fmtPhase (correctedPhase p drift (curMaxOf others last barriers proto))) proto)
   omega
+
+/-- **Phase-jump gap at the level of the API call.**  When `seq.add(pulse, channel, protocol)`
+succeeds with 'min-delay' or 'wait-for-all' and the pulse as scheduled has a phase different from
+the channel's previous (non detuned-delay) pulse `lp`, the appended pulse starts at least
+`max(phase_jump_time, 2·rise_time·[EOM mode]) + fall_time(lp)` after `lp` ended. -/
+theorem add_phase_jump_gap (s : SeqState) (hi : SeqInv s) (p : PulseIn) (n : ChName)
+    (proto : Protocol) (hproto : proto ≠ .noDelay)
+    (hok : (addCore s p n (some proto) none).err = none) :
+    ∃ (c c' : ChanState) (slot : Slot) (pr : PulseRec),
+      s.getChan n = some c ∧ (addCore s p n (some proto) none).st.getChan n = some c' ∧
+      c'.last = .ok slot ∧ slot.kind = .pulse pr ∧
+      ∀ ls lp, c.lastPulseSlot true = some (ls, lp) → lp.phase ≠ pr.phase →
+        ls.tf + ((max c.cfg.pjt (if c.inEomMode then 2 * c.cfg.rise else 0) : Nat) : Int)
+          + (lp.fall c.inEomMode : Nat) ≤ slot.ti := by
+  obtain ⟨c, c', last, slot, pr0, ref, hgc, hl, _, hpr, hm, hget, hl'⟩ := addCore_ok_spec hi hok
+  have hci := hi c (getChan_mem hgc).1
+  obtain ⟨p', hk, hph, _⟩ := C07.scheduled_phase (makeNext_blk_indep hm)
+  refine ⟨c, c', slot, p', hgc, hget, hl', hk, ?_⟩
+  intro ls lp hlp hne
+  apply phase_jump_gap hci.1 hl hm hproto hlp
+  -- the phase compared by the scheduler is the (already reduced) phase of the pulse
+  have hred : fmtPhase pr0.phase = pr0.phase := by
+    unfold validateAndAdjust at hpr
+    split at hpr
+    · cases hpr
+    · split at hpr
+      · cases hpr
+      · split at hpr
+        · cases hpr
+        · split at hpr
+          · cases hpr
+          · injection hpr with hpr; subst hpr; exact fmtPhase_idem _
+  show lp.phase ≠ fmtPhase (correctedPhase pr0 none _)
+  unfold correctedPhase
+  rw [hred, ← hph]; exact hne
 
 /-- **Retargeting to the same atoms inserts nothing** (after the repair of F4). -/
 theorem same_target_noop (ms : Option Nat) (c : ChanState) (qs : List Nat)
